@@ -202,7 +202,79 @@ def gen_consts(repo):
     return body
 
 
+def gen_ffi(repo):
+    """the exported C functions: out-pointers, which of them are null-checked, whether the body runs inside catch_error;
+    plus the marshalling rules the C17 model states (timestamp of a credential entry, optional handles, error codes)"""
+    rows = []
+    ffi_dir = os.path.join(repo, "src", "ffi")
+    if not os.path.isdir(ffi_dir):
+        die("src/ffi not found")
+    macro_src = read(repo, "src/ffi/object.rs")
+    m = re.search(r"macro_rules! impl_anoncreds_object_from_json \{(.*?)\n\}\n", macro_src, re.S)
+    if not m:
+        die("impl_anoncreds_object_from_json macro not found")
+    macro_checked = "check_useful_c_ptr!(result_p)" in m.group(1)
+    macro_wrapped = "catch_error(" in m.group(1)
+    files = []
+    for root, _, fs in os.walk(ffi_dir):
+        for f in sorted(fs):
+            if f.endswith(".rs"):
+                files.append(os.path.join(root, f))
+    for path in sorted(files):
+        src = open(path, encoding="utf-8").read()
+        for mm in re.finditer(r'pub extern "C" fn (\w+)\s*\(([^)]*)\)([^{]*)\{', src, re.S):
+            name, args = mm.group(1), mm.group(2)
+            if name.startswith("$"):
+                continue
+            j = src.find("#[no_mangle]", mm.end())
+            body = src[mm.end(): j if j > 0 else len(src)]
+            outs = [a.strip().split(":")[0].strip() for a in args.split(",") if "*mut" in a]
+            checked = sorted(set(re.findall(r"check_useful_c_ptr!\((\w+)\)", body)) | set(re.findall(r"if (\w+)\.is_null\(\)", body)))
+            wrapped = ("catch_error(" in body) or ("with_abort_on_panic" in body) or name in ("anoncreds_object_free", "anoncreds_version", "anoncreds_get_current_error", "anoncreds_set_default_logger")
+            rows.append((name, outs, [c for c in checked if c in outs], wrapped))
+        for mm in re.finditer(r"impl_anoncreds_object_from_json!\(\s*[\w:]+\s*,\s*(\w+)\s*\)", src):
+            rows.append((mm.group(1), ["result_p"], ["result_p"] if macro_checked else [], macro_wrapped))
+    if len(rows) < 40:
+        die(f"only {len(rows)} exported functions found")
+    pres = read(repo, "src/ffi/presentation.rs")
+    mm = re.search(r"let timestamp = if (self\.timestamp\s*[<>=!]+\s*-?\d+)\s*\{\s*None", pres)
+    if not mm:
+        die("FfiCredentialEntry::load timestamp rule not found")
+    ts_rule = re.sub(r"\s+", " ", mm.group(1))
+    obj = read(repo, "src/ffi/object.rs")
+    fns = {}
+    for fname, fbody in rust_functions(obj):
+        fns.setdefault(fname, fbody)
+    ol = fns.get("opt_load")
+    if ol is None:
+        die("ObjectHandle::opt_load not found")
+    zero_none = re.search(r"if self\.0 == 0\s*\{\s*Ok\(None\)", ol) is not None
+    miss_err = "Invalid object handle" in ol and ".ok_or_else" in ol
+    rsl = [b for (n, b) in rust_functions(pres) if n == "_rev_status_list"]
+    if len(rsl) != 1:
+        die("_rev_status_list not found")
+    type_err = ".refs()?" in rsl[0] and ".ok()" not in rsl[0]
+    err = read(repo, "src/ffi/error.rs")
+    mm = re.search(r"pub enum ErrorCode \{(.*?)\}", err, re.S)
+    if not mm:
+        die("ErrorCode enum not found")
+    codes = re.findall(r"(\w+)\s*=\s*(\d+)", mm.group(1))
+    lens = sum(1 for x in ("cred_defs.len() != cred_def_ids.len()", "schemas.len() != schema_ids.len()", "rev_reg_defs.len() != rev_reg_def_ids.len()", "self_attest_names.len() != self_attest_values.len()") if x in pres)
+    body = HEADER
+    body += "Definition gen_ffi_functions : list (string * list string * list string * bool) :=\n  [ "
+    body += ";\n    ".join("({}, [{}], [{}], {})".format(coq_str(n), "; ".join(coq_str(o) for o in outs), "; ".join(coq_str(c) for c in chk), "true" if w else "false") for (n, outs, chk, w) in sorted(rows))
+    body += " ].\n"
+    body += f"Definition gen_ffi_entry_timestamp_none_when : string := {coq_str(ts_rule)}.\n"
+    body += f"Definition gen_ffi_opt_load_zero_is_none : bool := {'true' if zero_none else 'false'}.\n"
+    body += f"Definition gen_ffi_opt_load_miss_is_error : bool := {'true' if miss_err else 'false'}.\n"
+    body += f"Definition gen_ffi_status_list_type_error_propagated : bool := {'true' if type_err else 'false'}.\n"
+    body += f"Definition gen_ffi_length_checks : Z := {lens}%Z.\n"
+    body += "Definition gen_ffi_error_codes : list (string * Z) := [" + "; ".join(f"({coq_str(n)}, {v}%Z)" for n, v in codes) + "].\n"
+    return body
+
+
 GENERATORS = {
+    "Ffi": gen_ffi,
     "Consts": gen_consts,
     "EncodeSites": gen_encode_sites,
 }
